@@ -1,132 +1,123 @@
 /-
   Props/C14 — the tree stays well-formed under any sequence of edits.
 
-  Model: `Model/Graph` (`Sys`, `step`), abstraction and well-formedness: `Spec/Structure` (`abs`, `WF`),
-  excluded call patterns: `Spec/Safe` (`Safe`, `SafeInit`).
+  Model: `Model/Graph` (`Sys`, `step`: System.__init__, add_source, add_comp, change_comp, del_comp, set_sys_phases,
+  set_comp_phases mirrored statement by statement), abstraction and well-formedness: `Spec/Structure` (`abs`, `WF`).
 
-    sane_init, sane_step      the graph of the model stays a legal rustworkx PyDAG state — unconditionally
-    wf_init_partial           a freshly constructed system is well-formed              (unless rail = source name: F33)
-    wf_step_partial           every call, accepted or rejected, preserves WF           (for `Safe` calls)
-    wf_reachable_partial      every state reached by a history of `Safe` calls is WF   (induction over the history)
-    wf_init_full_fails, wf_step_full_fails and `fNN_breaks_wf`
-                              the statements without the `Safe` hypotheses are FALSE for system.py as it stands:
-                              one reachable witness per finding F16, F17, F17b, F18, F19, F20, F21, F32, F33
-    safe_nonvacuous           `SafeHist` holds on a non-trivial history (mux, parents by rail, rename, both del_childs,
-                              re-use of a freed name and index, rejected calls)
+    legal_init, legal_step   the model state stays one the Python data structures can be in (rustworkx PyDAG state with
+                             unique `nodes` keys, a `pnames` entry per live node) — for every call, whatever its outcome
+    wf_init                  a freshly constructed system is well-formed
+    wf_step                  EVERY call — accepted or rejected — preserves well-formedness
+    wf_reachable             hence every state reached by any history is well-formed (induction over the history)
+    wf_nonvacuous            a non-trivial history (mux, parents by rail, renames of mux inputs, both del_childs,
+                             re-use of a freed name / rail / node index, rejected calls) evaluated in the kernel
+    regression_*             the minimal histories of the former findings F16–F21, F32–F34 (fixed in /repo):
+                             what they do now
+
+  Full strength: no hypothesis on the call or its arguments.  (Before the fixes 41d27b8 … 8226650 in /repo these
+  statements were false; the witnesses are kept below as kernel-evaluated regressions.)
 -/
-import SysLoss.Proofs.WfAbs
+import SysLoss.Proofs.Reject
 
 set_option linter.unusedSectionVars false
 set_option linter.unusedVariables false
+set_option linter.unusedSimpArgs false
 
 namespace SysLoss
 namespace C14
 section
 variable {π ν : Type} [CompLike π]
 
-/-- the constructor leaves a legal graph state -/
-theorem sane_init {name : String} {src : π} {g r : String} {s : Sys π ν}
-    (h : Sys.init name src g r = some s) : Sane s := sane_init_all h
+/-- the constructor leaves a legal state -/
+theorem legal_init {name : String} {src : π} {g r : String} {s : Sys π ν}
+    (h : Sys.init name src g r = some s) : Legal s := legal_init_all h
 
-/-- every call keeps the graph a legal rustworkx state, whatever its arguments and outcome -/
-theorem sane_step {s : Sys π ν} (hs : Sane s) (op : Op π ν) : Sane (s.step op).1 := sane_step_all hs op
+/-- every call keeps the state legal, whatever its arguments and outcome -/
+theorem legal_step {s : Sys π ν} (hl : Legal s) (op : Op π ν) : Legal (s.step op).1 := legal_step_all hl op
 
-theorem sane_run {s : Sys π ν} (hs : Sane s) (ops : List (Op π ν)) : Sane (s.run ops) := by
+theorem legal_run {s : Sys π ν} (hl : Legal s) (ops : List (Op π ν)) : Legal (s.run ops) := by
   induction ops generalizing s with
-  | nil => exact hs
-  | cons op ops ih => exact ih (sane_step hs op)
+  | nil => exact hl
+  | cons op ops ih => exact ih (legal_step hl op)
 
-/-- C14 (1): `System(name, source, group, rail)` is well-formed — unless `rail` is the source's own name (F33) -/
-theorem wf_init_partial {name : String} {src : π} {g r : String} {s : Sys π ν}
-    (h : Sys.init name src g r = some s) (hsafe : Sys.SafeInit src r) : s.abs.WF := by
-  have hs := sane_init h
+/-- C14 (1): `System(name, source, group, rail)` is well-formed -/
+theorem wf_init {name : String} {src : π} {g r : String} {s : Sys π ν}
+    (h : Sys.init name src g r = some s) : s.abs.WF := by
+  have hs := (legal_init h).sane
   apply wf_abs_of_wfr hs
   unfold Sys.init at h
   split at h
   · simp at h
   · next hk =>
-    simp only [Option.some.injEq] at h
-    subst h
-    have hk' : kindOfC src = .source := by simpa using hk
-    constructor
-    · simp [Sys.names]
-    · unfold Sys.railNames; simp only [dvals_cons, dvals_nil]
-      by_cases h0 : r = "" <;> simp [List.filter_cons, h0]
-    · intro x hx
-      simp only [Sys.names, List.map_cons, List.map_nil, List.mem_singleton] at hx
-      subst hx
-      unfold Sys.railNames
-      simp only [dvals_cons, dvals_nil, List.mem_filter, List.mem_singleton, decide_eq_true_eq, not_and]
-      intro e hne
-      rcases hsafe with h0 | h0
-      · rw [h0] at e; exact hne e
-      · exact h0 e.symm
-    · intro p hp
-      simp only [List.mem_singleton] at hp; subst hp
-      simp [Sys.preds, hk']
-    · intro p hp hm
-      simp only [List.mem_singleton] at hp; subst hp
-      simp [Sys.preds] at hm
-    · simp only [List.filter_cons, List.filter_nil]; split <;> simp
-    · intro e he; simp at he
-    · intro x hx; simpa [Sys.names] using hx
-    · intro p hp
-      simp only [List.mem_singleton] at hp; subst hp
-      simp [dget]
-    · intro x; simp [Sys.names]
-    · intro x; simp [Sys.names]
-    · intro x; simp [Sys.names]
-    · intro p hp hm
-      simp only [List.mem_singleton] at hp; subst hp
-      simp [Sys.preds] at hm
+    split at h
+    · simp at h
+    · next hrail =>
+      simp only [Option.some.injEq] at h
+      subst h
+      have hk' : kindOfC src = .source := by simpa using hk
+      constructor
+      · simp [Sys.names]
+      · unfold Sys.railNames; simp only [dvals_cons, dvals_nil]
+        by_cases h0 : r = "" <;> simp [List.filter_cons, h0]
+      · intro x hx
+        simp only [Sys.names, List.map_cons, List.map_nil, List.mem_singleton] at hx
+        subst hx
+        unfold Sys.railNames
+        simp only [dvals_cons, dvals_nil, List.mem_filter, List.mem_singleton, decide_eq_true_eq, not_and]
+        intro e hne
+        exact hrail ⟨e ▸ hne, e.symm⟩
+      · intro p hp
+        simp only [List.mem_singleton] at hp; subst hp
+        simp [Sys.preds, hk']
+      · intro p hp hm
+        simp only [List.mem_singleton] at hp; subst hp
+        simp [Sys.preds] at hm
+      · simp only [List.filter_cons, List.filter_nil]; split <;> simp
+      · intro e he; simp at he
+      · intro x hx; simpa [Sys.names] using hx
+      · intro p hp
+        simp only [List.mem_singleton] at hp; subst hp
+        simp [dget]
+      · intro x; simp [Sys.names]
+      · intro x; simp [Sys.names]
+      · intro x; simp [Sys.names]
+      · intro p hp hm
+        simp only [List.mem_singleton] at hp; subst hp
+        simp [Sys.preds] at hm
 
-/-- C14 (2): every `Safe` call — accepted or rejected — preserves well-formedness -/
-theorem wf_step_partial {s : Sys π ν} (hs : Sane s) (hw : s.abs.WF) (op : Op π ν) (hsafe : s.Safe op) :
-    (s.step op).1.abs.WF := by
+/-- C14 (2): every call — accepted or rejected, whatever its arguments — preserves well-formedness -/
+theorem wf_step {s : Sys π ν} (hl : Legal s) (hw : s.abs.WF) (op : Op π ν) : (s.step op).1.abs.WF := by
+  have hs := hl.sane
   have hr := wfr_of_wf_abs hs hw
-  apply wf_abs_of_wfr (sane_step hs op)
+  apply wf_abs_of_wfr (legal_step hl op).sane
   cases op with
   | addSource c g r => exact wfr_addSource hs hr c g r
   | addComp p c g r => exact wfr_addComp hs hr p c g r
-  | changeComp x c g r => exact wfr_changeComp hs hr x c g r hsafe
-  | delComp x d => exact wfr_delComp hs hr x d hsafe
+  | changeComp x c g r => exact wfr_changeComp hs hr x c g r
+  | delComp x d =>
+    show WFr (s.delComp x d).1
+    rcases delComp_spec hs hr hl.pnames_total x d with h | ⟨_, h⟩
+    · rw [h]; exact hr
+    · exact h
   | setSysPhases ph => exact wfr_setSysPhases hr ph
-  | setCompPhases x pc => exact wfr_setCompPhases hr x pc hsafe
+  | setCompPhases x pc => exact wfr_setCompPhases hr x pc
 
-/-- C14 (3): every state reached by a history of `Safe` calls is well-formed -/
-theorem wf_reachable_partial {s : Sys π ν} (hs : Sane s) (hw : s.abs.WF) (ops : List (Op π ν))
-    (hsafe : s.SafeHist ops) : (s.run ops).abs.WF := by
+/-- C14 (3): every state reached by a history of calls is well-formed -/
+theorem wf_reachable {s : Sys π ν} (hl : Legal s) (hw : s.abs.WF) (ops : List (Op π ν)) : (s.run ops).abs.WF := by
   induction ops generalizing s with
   | nil => exact hw
-  | cons op ops ih =>
-    obtain ⟨h1, h2⟩ := hsafe
-    exact ih (sane_step hs op) (wf_step_partial hs hw op h1) h2
+  | cons op ops ih => exact ih (legal_step hl op) (wf_step hl hw op)
 
-/-- … and so is every intermediate state -/
-theorem wf_prefix_partial {s : Sys π ν} (hs : Sane s) (hw : s.abs.WF) (ops : List (Op π ν))
-    (hsafe : s.SafeHist ops) (k : Nat) : (s.run (ops.take k)).abs.WF := by
-  apply wf_reachable_partial hs hw
-  induction ops generalizing s k with
-  | nil => simp [Sys.SafeHist]
-  | cons op ops ih =>
-    cases k with
-    | zero => simp [Sys.SafeHist]
-    | succ k =>
-      obtain ⟨h1, h2⟩ := hsafe
-      exact ⟨h1, ih (sane_step hs op) (wf_step_partial hs hw op h1) h2 k⟩
+/-- … from construction on: whatever is done to a `System`, it is well-formed -/
+theorem wf_always {name : String} {src : π} {g r : String} {s : Sys π ν}
+    (h : Sys.init name src g r = some s) (ops : List (Op π ν)) : (s.run ops).abs.WF :=
+  wf_reachable (legal_init h) (wf_init h) ops
 
 end
 
-/-! ### the full statements, and why they fail for the code as it stands -/
+/-! ### kernel-evaluated instances -/
 
 abbrev S := Sys PComp String
-
-/-- C14 (1) at full strength -/
-def wf_init_full : Prop :=
-  ∀ (name : String) (src : PComp) (g r : String) (s : S), Sys.init name src g r = some s → s.abs.WF
-
-/-- C14 (2) at full strength -/
-def wf_step_full : Prop := ∀ (s : S) (op : Op PComp String), Sane s → s.abs.WF → (s.step op).1.abs.WF
 
 def src (n : String) : PComp := { name := n, kind := .source }
 def conv (n : String) : PComp := { name := n, kind := .converter }
@@ -140,67 +131,7 @@ def s0 : S := { name := "s", comps := [(0, src "S")], edges := [], free := [], n
 
 theorem s0_init : Sys.init "s" (src "S") "" "" = some s0 := rfl
 
-theorem s0_sane : Sane s0 := sane_init s0_init
-
-/-- F33: `System("s", Source("S"), rail="S")` -/
-theorem wf_init_full_fails : ¬ wf_init_full := by
-  intro h
-  have := h "s" (src "S") "" "S" _ rfl
-  revert this
-  decide
-
-/-- a reachable, well-formed state and a call that breaks well-formedness -/
-def Breaks (pre : List (Op PComp String)) (op : Op PComp String) : Prop :=
-  (s0.run pre).abs.WF ∧ ¬ ((s0.run pre).step op).1.abs.WF
-
-instance (pre : List (Op PComp String)) (op : Op PComp String) : Decidable (Breaks pre op) := by
-  unfold Breaks; infer_instance
-
-theorem breaks_refutes {pre : List (Op PComp String)} {op : Op PComp String} (h : Breaks pre op) : ¬ wf_step_full :=
-  fun hf => h.2 (hf _ op (sane_run s0_sane pre) h.1)
-
-/-- F16: add_comp("S", Converter("B")); add_comp("B", PLoad("L")); change_comp("B", PLoad("B")) -/
-theorem f16_breaks_wf : Breaks [.addComp (.one "S") (conv "B") "" "", .addComp (.one "B") (pload "L") "" ""]
-    (.changeComp "B" (pload "B") "" "") := by decide
-
-/-- F17: add_comp("S", Converter("B"), rail="R"); add_comp("S", Converter("C")); change_comp("C", Converter("C"), rail="R") -/
-theorem f17_breaks_wf : Breaks [.addComp (.one "S") (conv "B") "" "R", .addComp (.one "S") (conv "C") "" ""]
-    (.changeComp "C" (conv "C") "" "R") := by decide
-
-/-- F17b: add_comp("S", Converter("B")); change_comp("B", Converter("B"), rail="S") -/
-theorem f17b_breaks_wf : Breaks [.addComp (.one "S") (conv "B") "" ""] (.changeComp "B" (conv "B") "" "S") := by
-  decide
-
-/-- F18: add_source(Source("T")); add_comp(["S","T"], PMux("M")); change_comp("T", Source("T2")) -/
-theorem f18_breaks_wf : Breaks [.addSource (src "T") "" "", .addComp (.many ["S", "T"]) (mux "M") "" ""]
-    (.changeComp "T" (src "T2") "" "") := by decide
-
-/-- F19: add_source(Source("T")); add_comp("T", Converter("C")); add_comp(["S","C"], PMux("M")); del_comp("C", del_childs=False) -/
-theorem f19_breaks_wf : Breaks [.addSource (src "T") "" "", .addComp (.one "T") (conv "C") "" "",
-    .addComp (.many ["S", "C"]) (mux "M") "" ""] (.delComp "C" false) := by decide
-
-/-- F20: add_comp("S", Converter("B"), rail="R"); del_comp("R") -/
-theorem f20_breaks_wf : Breaks [.addComp (.one "S") (conv "B") "" "R"] (.delComp "R" true) := by decide
-
-/-- F21: add_comp("S", Converter("B"), rail="R"); set_comp_phases("R", ["a"]) -/
-theorem f21_breaks_wf : Breaks [.addComp (.one "S") (conv "B") "" "R"] (.setCompPhases "R" (.conf (.names ["a"]))) := by
-  decide
-
-/-- F32: add_comp("S", PMux("M")); add_comp("S", Converter("B")); change_comp("B", PMux("M2")) -/
-theorem f32_breaks_wf : Breaks [.addComp (.one "S") (mux "M") "" "", .addComp (.one "S") (conv "B") "" ""]
-    (.changeComp "B" (mux "M2") "" "") := by decide
-
-theorem wf_step_full_fails : ¬ wf_step_full := breaks_refutes f16_breaks_wf
-
-/-- each of the witnesses is excluded by `Safe`, i.e. `Safe` is not stronger than needed there -/
-theorem witnesses_unsafe :
-    ¬ (s0.run [.addComp (.one "S") (conv "B") "" "", .addComp (.one "B") (pload "L") "" ""]).Safe
-        (.changeComp "B" (pload "B") "" "") ∧
-    ¬ (s0.run [.addSource (src "T") "" "", .addComp (.many ["S", "T"]) (mux "M") "" ""]).Safe
-        (.changeComp "T" (src "T2") "" "") ∧
-    ¬ (s0.run [.addComp (.one "S") (conv "B") "" "R"]).Safe (.delComp "R" true) := by decide
-
-/-! ### non-vacuity: `Safe` holds along non-trivial histories -/
+theorem s0_legal : Legal s0 := legal_init s0_init
 
 def demo : List (Op PComp String) :=
   [ .addSource (src "T") "g" "rT",                         -- second source, with a rail
@@ -210,26 +141,86 @@ def demo : List (Op PComp String) :=
     .addComp (.one "M") (pload "K") "g" "",
     .addComp (.one "nosuch") (conv "X") "" "",             -- rejected: unknown parent
     .addComp (.one "S") (mux "M2") "" "",                  -- rejected: second PMux
+    .addComp (.many ["T", "rT"]) (mux "M3") "" "",         -- rejected: the same parent by name and by rail
     .changeComp "L" (pload "L2") "" "",                    -- rename a leaf
+    .changeComp "T" (src "T2") "" "",                      -- rename a mux input that was recorded by its rail, dropping the rail
+    .changeComp "B" (conv "B2") "" "rB",                   -- rejected: the rail is in use (its own — pinned by test_case18)
+    .changeComp "B" (conv "B2") "" "rB2",                  -- rename a mux input recorded by name
     .changeComp "M" (mux "M") "g2" "rM2",                  -- same name, new (free) rail
+    .changeComp "B2" (pload "B2") "" "",                   -- rejected: a load cannot carry B2's children
     .changeComp "S" (conv "S") "" "",                      -- rejected: source to other type
     .setSysPhases [("p1", "1.0"), ("p2", "2.0")],
     .setCompPhases "L2" (.conf (.table [("p1", "0.5")])),
+    .setCompPhases "rM2" (.conf (.names ["p1"])),          -- rejected: a rail is not a component
     .delComp "K" false,                                    -- delete a leaf
+    .delComp "rM2" true,                                   -- rejected: a rail is not a component
     .delComp "S" false,                                    -- rejected: source without its children
-    .delComp "B" true,                                     -- B, L2, M go
-    .addComp (.one "S") (conv "B") "" "rB",                -- name, rail and node index re-used
-    .delComp "T" true ]                                    -- one of two sources
+    .delComp "B2" false,                                   -- mux input deleted: the mux is re-pointed to S
+    .delComp "S" true,                                     -- S, L2?, M go
+    .addComp (.one "T2") (conv "B") "" "rB",               -- name, rail and node index re-used
+    .addSource (src "S") "" "" ]
 
-theorem safe_nonvacuous :
-    s0.SafeHist demo ∧ (s0.run demo).abs.WF ∧ (s0.run demo).comps.length = 2 ∧
-    s0.outcomes demo = [.ok, .ok, .ok, .ok, .ok, .raised "ValueError", .raised "ValueError", .ok, .ok,
-                        .raised "ValueError", .ok, .ok, .ok, .raised "ValueError", .ok, .ok, .ok] := by
+set_option maxRecDepth 8000 in
+/-- the general theorem, instantiated, and the same fact evaluated by the kernel together with the outcomes -/
+theorem wf_nonvacuous :
+    (s0.run demo).abs.WF ∧ (s0.run demo).comps.length = 3 ∧
+    s0.outcomes demo = [.ok, .ok, .ok, .ok, .ok, .raised "ValueError", .raised "ValueError", .raised "ValueError",
+                        .ok, .ok, .raised "ValueError", .ok, .ok, .raised "ValueError", .raised "ValueError", .ok, .ok,
+                        .raised "ValueError", .ok, .raised "ValueError", .raised "ValueError", .ok, .ok, .ok, .ok] := by
   decide
 
-/-- the theorem applies to it -/
-example : (s0.run demo).abs.WF :=
-  wf_reachable_partial s0_sane (wf_init_partial s0_init (by decide)) demo safe_nonvacuous.1
+example : (s0.run demo).abs.WF := wf_always s0_init demo
+
+/-! ### the former findings, now regressions -/
+
+/-- F16: change_comp to a load of a component with children is rejected -/
+theorem regression_F16 :
+    s0.outcomes [.addComp (.one "S") (conv "B") "" "", .addComp (.one "B") (pload "L") "" "",
+                 .changeComp "B" (pload "B") "" ""] = [.ok, .ok, .raised "ValueError"] := by decide
+
+/-- F17 / F17b: an unchanged name no longer skips the rail check -/
+theorem regression_F17 :
+    s0.outcomes [.addComp (.one "S") (conv "B") "" "R", .addComp (.one "S") (conv "C") "" "",
+                 .changeComp "C" (conv "C") "" "R", .changeComp "C" (conv "C") "" "S",
+                 .changeComp "C" (conv "C") "" "C", .changeComp "B" (conv "B") "" "R"] =
+      [.ok, .ok, .raised "ValueError", .raised "ValueError", .raised "ValueError", .ok] := by decide
+
+/-- F18: renaming a mux input re-points the recorded input -/
+theorem regression_F18 :
+    let s := s0.run [.addSource (src "T") "" "", .addComp (.many ["S", "T"]) (mux "M") "" "",
+                     .changeComp "T" (src "T2") "" ""]
+    s.abs.WF ∧ dget s.pnames 2 = some ["S", "T2"] := by decide
+
+/-- F19: deleting a mux input without its children re-points the recorded input to the deleted component's parent -/
+theorem regression_F19 :
+    let s := s0.run [.addSource (src "T") "" "", .addComp (.one "T") (conv "C") "" "",
+                     .addComp (.many ["S", "C"]) (mux "M") "" "", .delComp "C" false]
+    s.abs.WF ∧ dget s.pnames 3 = some ["S", "T"] := by decide
+
+/-- F19, the duplicate case: the deleted input's parent already is an input -/
+theorem regression_F19_dup :
+    let s := s0.run [.addComp (.one "S") (conv "C") "" "", .addComp (.many ["S", "C"]) (mux "M") "" "",
+                     .delComp "C" false]
+    s.abs.WF ∧ dget s.pnames 2 = some ["S"] ∧ s.preds 2 = [0] := by decide
+
+/-- F20 / F21: rail names do not address components in del_comp / set_comp_phases -/
+theorem regression_F20_F21 :
+    s0.outcomes [.addComp (.one "S") (conv "B") "" "R", .delComp "R" true,
+                 .setCompPhases "R" (.conf (.names ["a"]))] = [.ok, .raised "ValueError", .raised "ValueError"] := by
+  decide
+
+/-- F32: change_comp cannot create a second PMux -/
+theorem regression_F32 :
+    s0.outcomes [.addComp (.one "S") (mux "M") "" "", .addComp (.one "S") (conv "B") "" "",
+                 .changeComp "B" (mux "M2") "" ""] = [.ok, .ok, .raised "ValueError"] := by decide
+
+/-- F33: the constructor rejects a rail equal to the source's name; F34: an empty parent list is a ValueError -/
+theorem regression_F33_F34 :
+    (Sys.init "s" (src "S") "" "S" : Option S) = none ∧
+    s0.outcomes [.addComp (.many []) (mux "M") "" ""] = [.raised "ValueError"] := by
+  constructor
+  · rfl
+  · decide
 
 end C14
 end SysLoss
